@@ -35,6 +35,14 @@ off64_t gd_nframes64(DIRFILE* D)
     return 0;
   }
 
+  /* the reference field's samples-per-frame may be given by a scalar field
+   * which has not been (or cannot be) resolved yet */
+  if (!(D->reference_field->flags & GD_EN_CALC))
+    _GD_CalculateEntry(D, D->reference_field, 1);
+
+  if (D->error)
+    GD_RETURN_ERROR(D);
+
   if (!_GD_Supports(D, D->reference_field, GD_EF_NAME | GD_EF_SIZE))
     GD_RETURN_ERROR(D);
 
